@@ -54,7 +54,7 @@ impl<'a> Checker<'a> {
                 // attribute the panic to the property whose symptom it is
                 let sig = if p.contains("file_cleaner.rs") {
                     Some("C14/panic:size-assert-in-finish")
-                } else if p.contains("MAX_XORB") || p.contains("data_aggregator.rs") || p.contains("raw_xorb_data.rs") {
+                } else if p.contains("MAX_XORB") || p.contains("data_aggregator.rs") || p.contains("raw_xorb_data.rs") || (p.contains("file_upload_session.rs") && p.contains("left <= right")) {
                     Some("C15/panic:limit-assert")
                 } else {
                     None
